@@ -305,21 +305,32 @@ def run_lifecycle(res, tier):
                     res.violation(check, "equal-but-different-hash-after-early-hash", spec=spec, op=op_content(oa))
         if not (a == b):
             res.violation(check, "instances-not-equal-after-early-hash", spec=spec)
-        # 2. the same operation objects reused in a second instance with the job order reversed
-        c = JobShopInstance(list(reversed(jobs_a)))
-        rev = tuple(reversed(spec))
-        d = impl.mk_instance(rev)
-        for jc, jd in zip(c.jobs, d.jobs):
-            for oc, od in zip(jc, jd):
-                if not (oc == od):
-                    res.violation(check, "same-content-not-equal-after-reuse", spec=rev, op=op_content(oc))
-                elif hash(oc) != hash(od):
-                    res.violation(check, "equal-but-different-hash-after-reuse", spec=rev, op=op_content(oc))
-        # 3. compared, then changed in place, then compared again
+        # 2. the same operation objects reused in a second instance with the job
+        #    order reversed (an implementation may refuse this: then skipped)
+        try:
+            c = JobShopInstance(list(reversed(jobs_a)))
+        except Exception as exc:  # noqa: BLE001
+            c = None
+            res.note(f"reuse-of-operations-refused:{type(exc).__name__}")
+        if c is not None:
+            rev = tuple(reversed(spec))
+            d = impl.mk_instance(rev)
+            for jc, jd in zip(c.jobs, d.jobs):
+                for oc, od in zip(jc, jd):
+                    if not (oc == od):
+                        res.violation(check, "same-content-not-equal-after-reuse", spec=rev, op=op_content(oc))
+                    elif hash(oc) != hash(od):
+                        res.violation(check, "equal-but-different-hash-after-reuse", spec=rev, op=op_content(oc))
+        # 3. compared, then changed in place, then compared again (an
+        #    implementation with immutable operations refuses: then skipped)
         e, f = impl.mk_instance(spec), impl.mk_instance(spec)
         if not (e == f):
             res.violation(check, "independently-built-copy-not-equal", spec=spec)
-        e.jobs[-1][-1].duration += 1
+        try:
+            e.jobs[-1][-1].duration += 1
+        except Exception as exc:  # noqa: BLE001
+            res.note(f"in-place-change-refused:{type(exc).__name__}")
+            continue
         changed = tuple(tuple((ms, dd + (1 if (j == len(spec) - 1 and p == len(job) - 1) else 0)) for p, (ms, dd) in enumerate(job)) for j, job in enumerate(spec))
         g = impl.mk_instance(changed)
         if e == f or f == e:
